@@ -341,7 +341,7 @@ def u_rendered(ctx):
     return obs
 
 
-def renderer_world(ctx, eng, st, fam="text", dynamic=True):
+def renderer_world(ctx, eng, st, fam="text", dynamic=True, closed=False):
     """callee contracts for BaseImage._renderer (shared with C06/C07/C11)"""
     P = world(ctx, eng, fam, st)
     vs, VW, VH, code = valid_size_contract(P)
@@ -360,9 +360,24 @@ def renderer_world(ctx, eng, st, fam="text", dynamic=True):
     eng.methods[("BaseImage", "set_size")] = set_size
     eng.methods[("BaseImage", "_valid_size")] = vs
 
+    # the image may have been finalized (closed) before this render is attempted: _get_image then fails - and the size setting has
+    # to come out as it went in all the same
+    st.H(self_)["_closed"] = closed
+    setter = ctx.fn(COMMON, "BaseImage.size")
+    extra_decorators = [ast.unparse(d) for d in setter.decorator_list if ast.unparse(d) != "size.setter"]
+    if any(d != "_close_validated" for d in extra_decorators):
+        raise Unsupported(f"decorators of the size setter: {extra_decorators}")
+
     def size_setter(e, s, recv, a, k):
-        # contract proved by unit common:BaseImage.size(setter)
+        """the real setter (with what its decorators add) for the one kind of value _renderer hands it: a Size member"""
+        if "_close_validated" in extra_decorators:
+            # contract of the decorator (utils-level helper of common.py): a finalized instance rejects the operation
+            if s.H(recv)["_closed"]:
+                e.raise_(ExcVal("TermImageError"), s)
+                return []
         if isinstance(a[0], EnumV):
+            if not any(isinstance(n_, ast.Assign) and ast.unparse(n_) == "self._size = size" for n_ in ast.walk(setter)):
+                raise Unsupported("size setter no longer stores a Size member with `self._size = size`")
             s.H(recv)["_size"] = a[0]
             return [(None, s)]
         raise Unsupported("size setter with a tuple inside _renderer")
@@ -379,6 +394,8 @@ def renderer_world(ctx, eng, st, fam="text", dynamic=True):
 
     def get_image(e, s, recv, a, k):
         e.raise_(ExcVal("TermImageError"), e.fork(s), fault=True)       # finalized image / unreadable file
+        if closed:
+            return []                                                   # a finalized image: always
         s = e.fork(s)
         img = s.new("PIL.Image", {"open": True})
         return [(img, s)]
@@ -389,10 +406,10 @@ def renderer_world(ctx, eng, st, fam="text", dynamic=True):
 @unit(("C04", "C07", "C11"), "common:BaseImage._renderer/size-setting-restored")
 def u_renderer_frame(ctx):
     obs = []
-    for dynamic in (True, False):
-        eng = ctx.engine(f"C04/_renderer[{'dynamic' if dynamic else 'fixed'}]", "C04")
+    for dynamic, closed in ((True, False), (False, False), (True, True), (False, True)):
+        eng = ctx.engine(f"C04/_renderer[{'dynamic' if dynamic else 'fixed'}{',image-already-closed' if closed else ''}]", "C04")
         st = State()
-        P, self_, member, fixed = renderer_world(ctx, eng, st, "text", dynamic)
+        P, self_, member, fixed = renderer_world(ctx, eng, st, "text", dynamic, closed)
         seen_size = []
 
         def renderer(e, s, a, k):
